@@ -79,3 +79,27 @@ void harness_big(void)
 	CHECK(whole == parts, "one call over more than 65536 bytes equals two shorter calls");
 	WITNESS("big");
 }
+
+/* Concrete sweep over every length 0..SWEEP and the four start alignments: one call over L bytes must equal L
+ * one-byte calls (whose step is proved for all states and bytes by crc.step).  All-zero data and a non-zero start
+ * value keep every step a constant for CBMC's symbolic execution; a routine that mis-handles some length class
+ * (bulk / unrolled paths, tails, alignment prologues) changes the state sequence and is seen.  Concrete paths,
+ * complementing the quantified harnesses (which stop at 8 bytes). */
+#ifndef SWEEP
+#define SWEEP 160
+#endif
+static uint8_t sweepbuf[SWEEP + 8];
+void harness_sweep(void)
+{
+	uint16_t ref = 0x1234;
+	unsigned L, off;
+	for (L = 0; L <= SWEEP; ++L) {
+		for (off = 0; off < 4; ++off) {
+			uint16_t whole = 0x1234;
+			lha_crc16_buf(&whole, sweepbuf + off, L);
+			CHECK(whole == ref, "one call over L bytes equals L one-byte steps, for every length and start alignment");
+		}
+		lha_crc16_buf(&ref, sweepbuf, 1);
+	}
+	WITNESS("sweep");
+}
